@@ -147,7 +147,9 @@ def run(tier):
     chk = Check(PROP, tier)
     chk.model("MC_SM2Toy", cfg="MC_SM2Toy.cfg" if tier == "thorough" else "MC_SM2Toy_quick.cfg")
     chk.model("MC_Reader", cfg="MC_Reader.cfg" if tier == "quick" else "MC_Reader_thorough.cfg", timeout=3000)
-    chk.exec_and_validate("T_SM2", gen(chk, tier), keyfn, accel=True, families=("bits", "big"))
+    cmds_ = gen(chk, tier)
+    chk.exec_and_validate("T_SM2", cmds_, keyfn, accel=True, families=("bits", "big"))
+    chk.first_use("T_SM2", cmds_, keyfn, accel=True, families=("bits", "big"))
     return chk.finish(
         "model_checking",
         "GenerateKey on streams whose first candidates are 0, n-1, n, n+1, 2^256-1 in every order of up to two "
